@@ -91,7 +91,7 @@ def from_item(draw, ctx, depth, ctes, bare_used, nojoin):
 @st.composite
 def select(draw, ctx, depth, ctes, nitems=None, nojoin=False):
     bare_used = set()
-    shape = draw(st.sampled_from(["single", "single", "comma2", "comma3", "join1", "join1", "join2", "mixed1", "mixed2"])) if not nojoin else draw(st.sampled_from(["single", "comma2", "comma3"]))
+    shape = draw(st.sampled_from(["single", "single", "comma2", "comma3", "join1", "join1", "join2", "join4", "mixed1", "mixed2"])) if not nojoin else draw(st.sampled_from(["single", "comma2", "comma3"]))
     has_join = shape.startswith("join") or shape.startswith("mixed")
     ctx.feat.add("from:" + shape)
     inner_nojoin = nojoin or has_join
@@ -196,6 +196,9 @@ def query(draw, ctx, depth, ctes=(), allow_with=True, nitems=None, nojoin=False)
             if len(ctes) + i >= len(CTES): break
             nm = CTES[len(ctes) + i]
             cq = draw(query(ctx, depth - 1, tuple(ctes) + tuple(names), allow_with=False))
+            txt = r_query(cq)
+            if txt in ctx.bodies: break  # no two equal-text subqueries (they are one node for sqllineage: finding K-eqtext-subq)
+            ctx.bodies.add(txt)
             ctx.cte_q[nm] = cq
             defs.append((nm, cq))
             names.append(nm)
